@@ -158,10 +158,13 @@ func New(startTime time.Time, logLevel slog.Level) *Handler {
 	// Galileo keeps GPS time.
 	startOfGalileoWeek := startOfGPSWeek
 
-	// Set the stored timestamps to match the start time.
-	timestampFromPreviousGPSMessage := (uint(startTime.Sub(startOfGPSWeek).Milliseconds()))
+	// Set the stored timestamps to the start of the week.  The start time can be
+	// any time during the week of the first observation, so the first timestamp
+	// may be smaller than the one matching the start time.  That must not look
+	// like a rollover into the next week.
+	var timestampFromPreviousGPSMessage uint = 0
 	timestampFromPreviousGalileoMessage := timestampFromPreviousGPSMessage
-	timestampFromPreviousBeidouMessage := (uint(startTime.Sub(startOfBeidouWeek).Milliseconds()))
+	var timestampFromPreviousBeidouMessage uint = 0
 
 	handler := Handler{
 		startOfGPSWeek:                      startOfGPSWeek,
